@@ -18,6 +18,13 @@
     be sliced (chunking bypass, C14), so the deployment reconciler issues no ObjectSlice writes;
     the ObjectDeployment carries no status conditions (no ObjectDeployment controller runs), so the
     status reconciler copies nothing; the Package is never deleted.
+    Besides API faults a scenario can let a third party write the ObjectDeployment (a metadata
+    change: new resourceVersion, same spec) right before any request of a pass: an Update sent with
+    a copy read before that write is rejected with Conflict.  The controller's pause propagation
+    returns that error; the deployment reconciler re-reads and retries (retry.RetryOnConflict).
+    [fixed = true] is the code as it is (Deploy stops when constraints are unmet);
+    [fixed = false] is Deploy before the defect was fixed by cb58cda, kept for the [_v0_]
+    refutation only.
     Executable definitions only; proofs are in PackageProofs.v. *)
 From Coq Require Import List NArith Bool.
 From PKO Require Import Util.
@@ -114,7 +121,7 @@ Inductive rkind :=
 | KListSet | KListSlice  (* slice garbage collection *)
 | KStatus.               (* Status().Update of the Package *)
 
-Inductive rout := OOk | ONotFound | OFault.
+Inductive rout := OOk | ONotFound | OConflict | OFault.
 
 Inductive ev :=
 | EPull (img : N)        (* imagePuller.Pull entered *)
@@ -122,6 +129,9 @@ Inductive ev :=
 | EReq (k : rkind) (r : rout).
 
 Record st := { st_w : world; st_f : list rstat (* outcome of the next requests; [] = all succeed *);
+               st_d : list bool (* a third party writes the ObjectDeployment right before the next requests *);
+               st_dirty : bool  (* a third party wrote the ObjectDeployment since the controller last read or wrote it:
+                                   the controller's in-memory copy carries an old resourceVersion *);
                st_log : list ev }.
 
 Record result := { r_st : st; r_err : bool (* Reconcile returned an error *);
@@ -129,26 +139,51 @@ Record result := { r_st : st; r_err : bool (* Reconcile returned an error *);
                                        Result of a pass that returns an error *) }.
 
 Definition logev (s : st) (e : ev) : st :=
-  {| st_w := st_w s; st_f := st_f s; st_log := st_log s ++ [e] |}.
+  {| st_w := st_w s; st_f := st_f s; st_d := st_d s; st_dirty := st_dirty s; st_log := st_log s ++ [e] |}.
 
 Definition fail (s : st) : result := {| r_st := s; r_err := true; r_requeue := false |}.
 
+Definition is_some {A} (x : option A) : bool := match x with Some _ => true | None => false end.
+
+(** requests after which the controller holds the current ObjectDeployment (response of a Get,
+    Create or Update) *)
+Definition reads_od (k : rkind) : bool :=
+  match k with KGetOD | KCreateOD | KUpdateOD | KPauseOD => true | _ => false end.
+(** Updates of the ObjectDeployment: sent with the resourceVersion of the in-memory copy *)
+Definition checks_od (k : rkind) : bool :=
+  match k with KUpdateOD | KPauseOD => true | _ => false end.
+
 (** One API request of kind [k].  [found]: the object addressed exists (reads and updates of a
-    missing object return NotFound); [eff]: the effect on the stored objects.  An API error ends
-    the pass with an error (every caller in the pass wraps and returns it); [kok] continues after
-    success, [knf] after NotFound. *)
-Definition call (k : rkind) (found : bool) (eff : world -> world) (s : st)
-                (kok knf : st -> result) : result :=
+    missing object return NotFound); [eff]: the effect on the stored objects.  First the third party
+    writes the ObjectDeployment if the scenario says so (and there is one); then, in the order of
+    the recording server: an injected error; NotFound; Conflict for an Update whose copy is out of
+    date; the effect (with the response lost if injected).  An API error ends the pass with an error
+    (every caller in the pass wraps and returns it) unless the caller handles it: [kok] continues
+    after success, [knf] after NotFound, [kcf] after Conflict. *)
+Definition call_gen (k : rkind) (found : bool) (eff : world -> world) (s : st)
+                    (kok knf kcf : st -> result) : result :=
   let x := match st_f s with [] => SOk | x :: _ => x end in
-  let f := tl (st_f s) in
-  let mk (w : world) (r : rout) := {| st_w := w; st_f := f; st_log := st_log s ++ [EReq k r] |} in
+  let t := match st_d s with [] => false | t :: _ => t end && is_some (w_od (st_w s)) in
+  let dirty := st_dirty s || t in
+  let mk (w : world) (d : bool) (r : rout) :=
+    {| st_w := w; st_f := tl (st_f s); st_d := tl (st_d s); st_dirty := d; st_log := st_log s ++ [EReq k r] |} in
+  let after := if reads_od k then false else dirty in
   match x with
-  | SErr => fail (mk (st_w s) OFault)
-  | SOk => if found then kok (mk (eff (st_w s)) OOk) else knf (mk (st_w s) ONotFound)
-  | SLost => if found then fail (mk (eff (st_w s)) OFault) else knf (mk (st_w s) ONotFound)
+  | SErr => fail (mk (st_w s) dirty OFault)
+  | SOk =>
+      if negb found then knf (mk (st_w s) dirty ONotFound)
+      else if checks_od k && dirty then kcf (mk (st_w s) dirty OConflict)
+      else kok (mk (eff (st_w s)) after OOk)
+  | SLost =>
+      if negb found then knf (mk (st_w s) dirty ONotFound)
+      else if checks_od k && dirty then kcf (mk (st_w s) dirty OConflict)
+      else fail (mk (eff (st_w s)) after OFault)
   end.
 
-Definition is_some {A} (x : option A) : bool := match x with Some _ => true | None => false end.
+(** a request whose caller returns a Conflict like any other error *)
+Definition call (k : rkind) (found : bool) (eff : world -> world) (s : st)
+                (kok knf : st -> result) : result :=
+  call_gen k found eff s kok knf fail.
 
 (** Effects on the stored objects.  The recording API server bumps metadata.generation exactly
     when something outside metadata and status changes. *)
@@ -190,7 +225,8 @@ Definition mk_cond (p : pkg) (t : ctype) (b : bool) (r : creason) : cond :=
 Section Pass.
   (** digest of the ObjectSetTemplateSpec rendered from (image, config, component) *)
   Variable digest : N -> N -> N -> N.
-  (** [fixed = false]: the code as it is.  [fixed = true]: Deploy stops when constraints are unmet. *)
+  (** [fixed = true]: the code as it is, Deploy stops when constraints are unmet.
+      [fixed = false]: Deploy before cb58cda (validateConstraints' nil was taken for "constraints met"). *)
   Variable fixed : bool.
   Variable o : oracle.
 
@@ -218,12 +254,26 @@ Section Pass.
                  p_conds := set_cond (mk_cond p CUnpacked true RUnpackSuccess) (p_conds p) |} in (* :142-149 *)
     after_unpack p1 s.
 
+  (** the closure of retry.RetryOnConflict(retry.DefaultRetry, ..) (deployment_reconciler.go:101-133):
+      labels / annotations merged and the template set on the in-memory copy (:102-115), Update
+      (:117); on Conflict the copy is re-read (:122-130) and the wrapped Conflict returned, which
+      RetryOnConflict answers with another attempt as long as attempts are left; any other error
+      ends the loop.  [tries] = attempts left after this one. *)
+  Fixpoint update_loop (tries : nat) (t : tmpl) (s : st) (k : st -> result) : result :=
+    call_gen KUpdateOD true (eff_update t) s k fail
+      (fun s => call KGetOD true (fun w => w) s
+                  (fun s => match tries with O => fail s | S m => update_loop m t s k end)
+                  fail).
+
+  (** retry.DefaultRetry.Steps = 5 attempts *)
+  Definition retry_steps : nat := 5.
+
   (** DeploymentReconciler.Reconcile (deployment_reconciler.go:71-142) with the desired template
       [Some (spec_digest ..)], followed by deployer.go:211-213. *)
   Definition deployment_reconcile (p : pkg) (s : st) : result :=
     let update (s : st) : result :=
-      (* :101-136 Update (an injected error is no conflict: no retry) *)
-      call KUpdateOD true (eff_update (Some (spec_digest (p_spec p)))) s
+      (* :101-136 *)
+      update_loop (pred retry_steps) (Some (spec_digest (p_spec p))) s
         (fun s =>
            (* :138 sliceGarbageCollection: list ObjectSets (:206-213), list ObjectSlices (:167-176), nothing to delete *)
            call KListSet true (fun w => w) s
@@ -232,8 +282,7 @@ Section Pass.
                    (* deployer.go:212 Load success *)
                    unpacked (with_conds p (remove_cond CInvalid (p_conds p))) s)
                 fail)
-             fail)
-        fail in
+             fail) in
     (* :77-89 *)
     call KGetOD (is_some (w_od (st_w s))) (fun w => w) s
       update
@@ -246,7 +295,7 @@ Section Pass.
     let p1 := if is_nil msgs then p
               else with_conds p (set_cond (mk_cond p CInvalid true RConstraintsFailed) (p_conds p)) in
     if fixed && negb (is_nil msgs) then
-      (* the repaired Deploy: stop like after a load error, keep the condition *)
+      (* deployer.go:156-161 (since cb58cda): stop like after a load error, keep the condition *)
       unpacked p1 s
     else
       (* deployer.go:156-173 *)
@@ -286,7 +335,7 @@ Section Pass.
       after_unpack p s                         (* :101-104 already unpacked *)
     else
       (* :108 Pull *)
-      let s := {| st_w := eff_pull (st_w s); st_f := st_f s;
+      let s := {| st_w := eff_pull (st_w s); st_f := st_f s; st_d := st_d s; st_dirty := st_dirty s;
                   st_log := st_log s ++ [EPull (s_image (p_spec p))] |} in
       if negb (o_pull o) then
         (* :109-126 ImagePullBackOff, RequeueAfter = backoff > 0, nil error;
@@ -323,6 +372,7 @@ End Pass.
 Inductive step :=
 | SEdit (sp : spec)             (* the user replaces the Package spec *)
 | SFault (n : N) (k : rstat)    (* request number n of the next pass gets outcome k *)
+| SDisturb (n : N)              (* a third party writes the ObjectDeployment right before request number n of the next pass *)
 | SPass (o : oracle).           (* one Reconcile with these stage outcomes *)
 
 (** What is observable of a pass. *)
@@ -341,6 +391,14 @@ Fixpoint arm (n : nat) (k : rstat) (f : list rstat) : list rstat :=
   | S m, x :: r => x :: arm m k r
   end.
 
+Fixpoint armb (n : nat) (d : list bool) : list bool :=
+  match n, d with
+  | O, [] => [true]
+  | O, _ :: r => true :: r
+  | S m, [] => false :: armb m []
+  | S m, x :: r => x :: armb m r
+  end.
+
 Definition edit (sp : spec) (w : world) : world :=
   let p := w_pkg w in
   if spec_eqb sp (p_spec p) then w
@@ -356,27 +414,29 @@ Section Run.
   Variable digest : N -> N -> N -> N.
   Variable fixed : bool.
 
-  (** State between passes: the stored objects and the armed faults. *)
-  Definition do_pass (o : oracle) (w : world) (f : list rstat) : result :=
-    reconcile digest fixed o {| st_w := w; st_f := f; st_log := [] |}.
+  (** State between passes: the stored objects, the armed faults and the armed third-party writes. *)
+  Definition do_pass (o : oracle) (w : world) (f : list rstat) (d : list bool) : result :=
+    reconcile digest fixed o {| st_w := w; st_f := f; st_d := d; st_dirty := false; st_log := [] |}.
 
-  Fixpoint run (steps : list step) (w : world) (f : list rstat) : list obs :=
+  Fixpoint run (steps : list step) (w : world) (f : list rstat) (d : list bool) : list obs :=
     match steps with
     | [] => []
-    | SEdit sp :: r => run r (edit sp w) f
-    | SFault n k :: r => run r w (arm (N.to_nat n) k f)
+    | SEdit sp :: r => run r (edit sp w) f d
+    | SFault n k :: r => run r w (arm (N.to_nat n) k f) d
+    | SDisturb n :: r => run r w f (armb (N.to_nat n) d)
     | SPass o :: r =>
-        let res := do_pass o w f in
-        obs_of res :: run r (st_w (r_st res)) []
+        let res := do_pass o w f d in
+        obs_of res :: run r (st_w (r_st res)) [] []
     end.
 
   (** The stored objects after a history. *)
-  Fixpoint final (steps : list step) (w : world) (f : list rstat) : world :=
+  Fixpoint final (steps : list step) (w : world) (f : list rstat) (d : list bool) : world :=
     match steps with
     | [] => w
-    | SEdit sp :: r => final r (edit sp w) f
-    | SFault n k :: r => final r w (arm (N.to_nat n) k f)
-    | SPass o :: r => final r (st_w (r_st (do_pass o w f))) []
+    | SEdit sp :: r => final r (edit sp w) f d
+    | SFault n k :: r => final r w (arm (N.to_nat n) k f) d
+    | SDisturb n :: r => final r w f (armb (N.to_nat n) d)
+    | SPass o :: r => final r (st_w (r_st (do_pass o w f d))) [] []
     end.
 End Run.
 
